@@ -62,4 +62,11 @@ def runLocalTx (sc : Schema) (cfg : Cfg) (w : World) (ltx : LocalTx) : Option Wo
     if ltx.isEmpty then some { w with t := t' }
     else some { t := t', branches := w.branches ++ [{ b := b, hasLog := !b.items.isEmpty }] }
 
+/-- phase one of a local transaction that ignores failed statements and commits; a branch is
+    registered when at least one statement went through -/
+def runLocalTxLenient (sc : Schema) (cfg : Cfg) (w : World) (ltx : LocalTx) : World :=
+  let r := localPhase1Lenient sc cfg w.t ltx
+  if r.2.2 == 0 then { w with t := r.1 }
+  else { t := r.1, branches := w.branches ++ [{ b := r.2.1, hasLog := !r.2.1.items.isEmpty }] }
+
 end Seata.AT
